@@ -21,7 +21,8 @@ Recognised shape (anything else aborts with exit status 1, "tie broken"):
       `dim = 3 if not latlon else 2` (z kept on the Cartesian path)
 
 Every numeric literal is read from its SOURCE TEXT into an exact decimal (never through a float)
-and emitted as an integer numerator over the common denominator 10^24.  A literal that is not a
+and emitted as an integer numerator over a common power-of-ten denominator (the smallest one between
+10^15 and 10^24 that represents all literals exactly; it is written into the generated file).  A literal that is not a
 plain (optionally signed) decimal number, or that needs more than 24 decimals, aborts.
 """
 import ast
@@ -223,16 +224,30 @@ def zl(xs):
     return "[" + "; ".join("%d" % x if x >= 0 else "(%d)" % x for x in xs) + "]"
 
 
-def emit(gauss, tri, defaults):
+def shrink(gauss, tri):
+    """the smallest power-of-ten denominator (at least 10^15) that represents every literal exactly:
+    keeps the integers of the certificate computation as small as the source digits allow"""
+    allv = [x for g, w in gauss.values() for x in g + w] + \
+           [x for p, w in tri.values() for x in [c for r in p for c in r] + w]
+    k = 0
+    while k < 9 and all(x % (10 ** (k + 1)) == 0 for x in allv):
+        k += 1
+    f = 10 ** k
+    g2 = {n: ([x // f for x in g], [x // f for x in w]) for n, (g, w) in gauss.items()}
+    t2 = {n: ([tuple(c // f for c in r) for r in p], [x // f for x in w]) for n, (p, w) in tri.items()}
+    return g2, t2, DEN // f
+
+
+def emit(gauss, tri, defaults, den):
     o = []
     o.append("(* GENERATED by harness/translators/c05_tables.py from uxarray/grid/area.py and uxarray/grid/grid.py.")
     o.append("   Do not edit: regenerated (and the dependent theorems re-checked) whenever the source changes.")
-    o.append("   Every entry is the integer numerator of the source literal over the denominator c05_den = 10^24. *)")
+    o.append("   Every entry is the integer numerator of the source literal over the denominator c05_den below. *)")
     o.append("From Coq Require Import ZArith List.")
     o.append("Import ListNotations.")
     o.append("Open Scope Z_scope.")
     o.append("")
-    o.append("Definition c05_den : Z := %d." % DEN)
+    o.append("Definition c05_den : Z := %d." % den)
     o.append("")
     o.append("(* get_gauss_quadratureDG: count -> (dG[0] before scaling, dW before scaling) *)")
     for c in GAUSS_COUNTS:
@@ -272,7 +287,8 @@ def main():
         tri = trans_tri(src, fns["get_tri_quadratureDG"])
         gsrc = open(os.path.join(repo, "uxarray", "grid", "grid.py")).read()
         defaults = trans_defaults(ast.parse(gsrc))
-        text = emit(gauss, tri, defaults)
+        gauss, tri, den = shrink(gauss, tri)
+        text = emit(gauss, tri, defaults, den)
     except (Unknown, OSError, SyntaxError) as e:
         sys.stderr.write("c05_tables: tie broken: %s\n" % e)
         print("c05_tables: tie broken: %s" % e)
